@@ -44,8 +44,9 @@ def opus_like(rng, nsec):
     if kind == 'no-volumes':
         pass
     elif kind == 'start-beyond':
-        s16[8] = 250
-        s16[10] = 251
+        s16[8] = rng.choice([200, 250, nsec // 18, nsec // 18 + 1])     # volume A beyond the last track
+        if rng.random() < 0.5:
+            s16[10] = 251
     else:
         s16[8] = 1
     return bytes(s16) + bytes(256), kind
